@@ -7,6 +7,7 @@ CONSTANTS MaxP, MaxLen, ExportLen,
           Only        \* {} = explore everything; else a set of histories <<<<lo,hi>>,...>> to replay
 VARIABLES hist, obs
 vars == <<hist, obs>>
+View == hist          \* obs is a function of hist: keep it out of the fingerprint
 
 Points == 0..MaxP
 Probe  == (0 - 1)..(MaxP + 1)          \* Get is asked at every point and one beyond each side
